@@ -397,5 +397,6 @@ def coverage(specs, results):
 
 
 if __name__ == "__main__":
+    qamp.selftest()
     boolq.selftest()
     sys.exit(main_for(sys.modules[__name__]))
